@@ -14,14 +14,15 @@ Theorem rejected_leaves_nothing s o :
   snd (a_step s o) = RFailed \/ snd (a_step s o) = RNotFound -> fst (a_step s o) = s.
 Proof.
   destruct o; cbn [a_step]; try (intros _; reflexivity);
-    match goal with |- context [if ?c then _ else _] => destruct c end; cbn [fst snd]; intros [H|H]; try discriminate; reflexivity.
+    try match goal with |- context [match find ?f ?l with _ => _ end] => destruct (find f l) end;
+    try match goal with |- context [if ?c then _ else _] => destruct c end; cbn [fst snd]; intros [H|H]; try discriminate; reflexivity.
 Qed.
 
 (* ---- each operation writes at most its own table ---- *)
 Definition table_of (o : regop) : N :=
   match o with
   | CreateApplication _ | DeleteApplication _ => 1
-  | CreateDevice _ | UpdateDevice _ | UpdateDeviceState _ _ _ _ | DeleteDevice _ => 2
+  | CreateDevice _ | UpdateDevice _ | UpdateDeviceState _ _ _ _ | DeleteDevice _ | AdvanceFCntUp _ _ _ _ | NextFCntDn _ => 2
   | AddDevNonce _ _ => 3
   | CreateGateway _ | UpdateGateway _ | DeleteGateway _ => 4
   | CreateUpstreamMessage _ => 5
@@ -37,6 +38,7 @@ Theorem only_own_table s o :
   (table_of o <> 6 -> a_downs (fst (a_step s o)) = a_downs s).
 Proof.
   destruct o; cbn [a_step table_of];
+    try match goal with |- context [match find ?f ?l with _ => _ end] => destruct (find f l) end;
     try match goal with |- context [if ?c then _ else _] => destruct c end; cbn; repeat split; intros H; try reflexivity; now exfalso.
 Qed.
 
@@ -84,7 +86,7 @@ End Find.
 Definition dev_target (o : regop) : option N :=
   match o with
   | CreateDevice d | UpdateDevice d => Some (rd_eui d)
-  | UpdateDeviceState e _ _ _ | DeleteDevice e => Some e
+  | UpdateDeviceState e _ _ _ | DeleteDevice e | AdvanceFCntUp e _ _ _ | NextFCntDn e => Some e
   | _ => None
   end.
 Theorem device_untouched_by_others s o e : dev_target o <> Some e -> dev_at (fst (a_step s o)) e = dev_at s e.
@@ -99,6 +101,15 @@ Proof.
   - destruct (existsb _ (a_devs s)); cbn; [|reflexivity]. rewrite (find_map_upd rd_eui) by reflexivity.
     destruct (N.eqb_spec e e0); [congruence|reflexivity].
   - destruct (existsb _ (a_devs s)); cbn; [|reflexivity]. apply (find_filter_other rd_eui). congruence.
+  - (* AdvanceFCntUp *)
+    destruct (existsb _ (a_devs s)); cbn; [|reflexivity].
+    rewrite (map_ext _ (fun y => if rd_eui y =? e0 then (if rd_fup y <=? accepted then upd_dev_state y newfup (rd_fdn y) kw else y) else y))
+      by (intros y; destruct (rd_eui y =? e0), (rd_fup y <=? accepted); reflexivity).
+    rewrite (find_map_upd rd_eui) by (intros y; destruct (rd_fup y <=? accepted); reflexivity).
+    destruct (N.eqb_spec e e0); [congruence|reflexivity].
+  - (* NextFCntDn *)
+    destruct (find _ (a_devs s)); cbn; [|reflexivity]. rewrite (find_map_upd rd_eui) by reflexivity.
+    destruct (N.eqb_spec e e0); [congruence|reflexivity].
 Qed.
 Theorem created_device_is_returned s d : snd (a_step s (CreateDevice d)) = ROk ->
   dev_at (fst (a_step s (CreateDevice d))) (rd_eui d) = Some d.
@@ -117,6 +128,44 @@ Theorem device_state_update_is_returned s e fup fdn kw : snd (a_step s (UpdateDe
 Proof.
   cbn [a_step]. destruct (existsb _ (a_devs s)); cbn; [|discriminate]. intros _. unfold dev_at. cbn.
   rewrite (find_map_upd rd_eui) by reflexivity. now rewrite N.eqb_refl.
+Qed.
+(* AdvanceFCntUp is a compare-and-store: whatever it answers, the device's expected uplink counter (and key
+   warning) change exactly when the stored counter had not passed the accepted one; it answers ROk exactly then *)
+Theorem advance_is_compare_and_store s e a nf kw :
+  dev_at (fst (a_step s (AdvanceFCntUp e a nf kw))) e
+  = option_map (fun old => if rd_fup old <=? a then upd_dev_state old nf (rd_fdn old) kw else old) (dev_at s e).
+Proof.
+  cbn [a_step]. destruct (existsb _ (a_devs s)) eqn:Ex; cbn [fst].
+  - unfold dev_at. cbn.
+    rewrite (map_ext _ (fun y => if rd_eui y =? e then (if rd_fup y <=? a then upd_dev_state y nf (rd_fdn y) kw else y) else y))
+      by (intros y; destruct (rd_eui y =? e), (rd_fup y <=? a); reflexivity).
+    rewrite (find_map_upd rd_eui) by (intros y; destruct (rd_fup y <=? a); reflexivity). now rewrite N.eqb_refl.
+  - unfold dev_at. destruct (find _ (a_devs s)) as [d|] eqn:F; cbn [option_map]; [|reflexivity].
+    apply find_some in F. destruct F as [Hin Hk].
+    assert (H : (rd_eui d =? e) && (rd_fup d <=? a) = false).
+    { destruct ((rd_eui d =? e) && (rd_fup d <=? a)) eqn:Hh; [|reflexivity]. exfalso.
+      assert (existsb (fun x => (rd_eui x =? e) && (rd_fup x <=? a)) (a_devs s) = true) by (apply existsb_exists; eauto). congruence. }
+    rewrite Hk in H. cbn in H. now rewrite H.
+Qed.
+Theorem advance_answers_found_iff_stored s e a nf kw :
+  snd (a_step s (AdvanceFCntUp e a nf kw)) = ROk <-> exists d, In d (a_devs s) /\ rd_eui d = e /\ rd_fup d <= a.
+Proof.
+  cbn [a_step]. destruct (existsb _ (a_devs s)) eqn:Ex; cbn [snd].
+  - split; [intros _|reflexivity]. apply existsb_exists in Ex. destruct Ex as (d & Hin & Hh). apply andb_true_iff in Hh.
+    destruct Hh as [H1 H2]. exists d. apply N.eqb_eq in H1. apply N.leb_le in H2. auto.
+  - split; [discriminate|]. intros (d & Hin & H1 & H2). exfalso.
+    assert (existsb (fun x => (rd_eui x =? e) && (rd_fup x <=? a)) (a_devs s) = true).
+    { apply existsb_exists. exists d. split; [exact Hin|]. apply andb_true_iff. split; [now apply N.eqb_eq | now apply N.leb_le]. }
+    congruence.
+Qed.
+(* NextFCntDn is a fetch-and-increment: the stored downlink counter is handed out and its successor (mod 2^16) stored *)
+Theorem next_is_fetch_and_increment s e :
+  snd (a_step s (NextFCntDn e)) = match dev_at s e with Some d => RCnt (rd_fdn d) | None => RNotFound end /\
+  dev_at (fst (a_step s (NextFCntDn e))) e
+  = option_map (fun old => upd_dev_state old (rd_fup old) ((rd_fdn old + 1) mod 65536) (rd_kw old)) (dev_at s e).
+Proof.
+  cbn [a_step]. unfold dev_at. destruct (find _ (a_devs s)) as [d|] eqn:F; cbn [fst snd option_map]; [|now rewrite F].
+  split; [reflexivity|]. cbn. rewrite (find_map_upd rd_eui) by reflexivity. now rewrite N.eqb_refl, F.
 Qed.
 Theorem deleted_device_is_gone s e : snd (a_step s (DeleteDevice e)) = ROk ->
   dev_at (fst (a_step s (DeleteDevice e))) e = None /\ forall x, In x (a_devs (fst (a_step s (DeleteDevice e)))) -> rd_eui x <> e.
@@ -170,6 +219,10 @@ Proof.
   - destruct (existsb _ (a_devs s)); cbn; [|exact H]. rewrite map_map.
     erewrite map_ext; [exact H|]. intros x. cbn. now destruct (rd_eui x =? e).
   - destruct (existsb _ (a_devs s)); cbn; [|exact H]. now apply NoDup_map_filter.
+  - destruct (existsb _ (a_devs s)); cbn; [|exact H]. rewrite map_map.
+    erewrite map_ext; [exact H|]. intros x. cbn. now destruct ((rd_eui x =? e) && (rd_fup x <=? accepted)).
+  - destruct (find _ (a_devs s)); cbn; [|exact H]. rewrite map_map.
+    erewrite map_ext; [exact H|]. intros x. cbn. now destruct (rd_eui x =? e).
 Qed.
 
 (* ---- applications and gateways: same laws ---- *)
